@@ -76,9 +76,18 @@ func ReadSegStats(segkey string, qid uint64) (map[string]*structs.SegStats, erro
 	var retErr error
 	for rIdx < uint32(len(fdata)) {
 
+		// the lengths come from the file: they must fit into what is left of it
+		remaining := uint64(len(fdata)) - uint64(rIdx)
+		if remaining < 2 {
+			return retVal, fmt.Errorf("qid=%d, ReadSegStats: sst file %v is cut short at offset %v", qid, fName, rIdx)
+		}
+
 		// cnamelen
 		cnamelen := utils.BytesToUint16LittleEndian(fdata[rIdx : rIdx+2])
 		rIdx += 2
+		if remaining < 2+uint64(cnamelen)+4 {
+			return retVal, fmt.Errorf("qid=%d, ReadSegStats: sst file %v is cut short at offset %v", qid, fName, rIdx)
+		}
 		// actual cname
 		cname := string(fdata[rIdx : rIdx+uint32(cnamelen)])
 		rIdx += uint32(cnamelen)
@@ -98,6 +107,11 @@ func ReadSegStats(segkey string, qid uint64) (map[string]*structs.SegStats, erro
 			continue
 		}
 
+		if uint64(sstlen) > uint64(len(fdata))-uint64(rIdx) {
+			return retVal, fmt.Errorf("qid=%d, ReadSegStats: sst of cname: %v has length %v, only %v bytes are left in %v",
+				qid, cname, sstlen, uint64(len(fdata))-uint64(rIdx), fName)
+		}
+
 		// actual sst
 		sst, err := readSingleSst(fdata[rIdx:rIdx+sstlen], qid)
 		if err != nil {
@@ -115,6 +129,11 @@ func readSingleSst(fdata []byte, qid uint64) (*structs.SegStats, error) {
 	sst := structs.SegStats{}
 
 	idx := uint32(0)
+
+	// version, isNumeric, count and the hll size
+	if len(fdata) < 1+1+8+4 {
+		return nil, fmt.Errorf("qid=%d, readSingleSst: sst of %v bytes is too short", qid, len(fdata))
+	}
 
 	// read version
 	version := fdata[idx]
@@ -138,6 +157,10 @@ func readSingleSst(fdata []byte, qid uint64) (*structs.SegStats, error) {
 		return nil, fmt.Errorf("qid=%d, readSingleSst: unknown version: %v", qid, version)
 	}
 
+	if uint64(hllSize) > uint64(len(fdata))-uint64(idx) {
+		return nil, fmt.Errorf("qid=%d, readSingleSst: hll size %v, only %v bytes are left", qid, hllSize, uint64(len(fdata))-uint64(idx))
+	}
+
 	err := sst.CreateHllFromBytes(fdata[idx : idx+hllSize])
 	if err != nil {
 		return nil, fmt.Errorf("qid=%d, readSingleSst: unable to create Hll from raw bytes. sst err: %v", qid, err)
@@ -146,7 +169,10 @@ func readSingleSst(fdata []byte, qid uint64) (*structs.SegStats, error) {
 	idx += hllSize
 
 	if sst.IsNumeric {
-		readNumericStats(&sst, fdata, idx)
+		err = readNumericStats(&sst, fdata, idx)
+		if err != nil {
+			return nil, fmt.Errorf("readSingleSst: error reading numeric stats: %v", err)
+		}
 		return &sst, nil
 	}
 
@@ -158,7 +184,12 @@ func readSingleSst(fdata []byte, qid uint64) (*structs.SegStats, error) {
 	return &sst, nil
 }
 
-func readNumericStats(sst *structs.SegStats, fdata []byte, idx uint32) {
+func readNumericStats(sst *structs.SegStats, fdata []byte, idx uint32) error {
+	// min, max and sum (a type byte and 8 bytes each) and the numeric count
+	if uint64(len(fdata)) < uint64(idx)+3*(1+8)+8 {
+		return fmt.Errorf("readNumericStats: expected %v more bytes, got %v", 3*(1+8)+8, uint64(len(fdata))-uint64(idx))
+	}
+
 	sst.NumStats = &structs.NumericStats{}
 
 	min := sutils.CValueEnclosure{}
@@ -199,9 +230,14 @@ func readNumericStats(sst *structs.SegStats, fdata []byte, idx uint32) {
 
 	// read NumericCount
 	sst.NumStats.NumericCount = utils.BytesToUint64LittleEndian(fdata[idx : idx+8])
+
+	return nil
 }
 
 func readNonNumericStats(sst *structs.SegStats, fdata []byte, idx uint32) error {
+	if uint64(len(fdata)) < uint64(idx)+1 {
+		return fmt.Errorf("readNonNumericStats: no dtype byte")
+	}
 	dType := sutils.SS_DTYPE(fdata[idx : idx+1][0])
 	idx += 1
 	// dType can only be string or backfill
@@ -216,8 +252,16 @@ func readNonNumericStats(sst *structs.SegStats, fdata []byte, idx uint32) error 
 		Dtype: sutils.SS_DT_STRING,
 	}
 	// read Min length
+	if uint64(len(fdata)) < uint64(idx)+2 {
+		return fmt.Errorf("readNonNumericStats: no min length")
+	}
 	minlen := utils.BytesToUint16LittleEndian(fdata[idx : idx+2])
 	idx += 2
+
+	// the min string and the max length must fit
+	if uint64(len(fdata)) < uint64(idx)+uint64(minlen)+2 {
+		return fmt.Errorf("readNonNumericStats: min string of %v bytes does not fit", minlen)
+	}
 
 	// read Min string
 	min.CVal = string(fdata[idx : idx+uint32(minlen)])
@@ -231,6 +275,10 @@ func readNonNumericStats(sst *structs.SegStats, fdata []byte, idx uint32) error 
 	// read Max length
 	maxlen := utils.BytesToUint16LittleEndian(fdata[idx : idx+2])
 	idx += 2
+
+	if uint64(len(fdata)) < uint64(idx)+uint64(maxlen) {
+		return fmt.Errorf("readNonNumericStats: max string of %v bytes does not fit", maxlen)
+	}
 
 	// read Max string
 	max.CVal = string(fdata[idx : idx+uint32(maxlen)])
